@@ -323,6 +323,10 @@ C36_SubOnlyTicks == [][UnsubscribedNow => (step'.act = "TimerFire" /\ step'.op =
 \* expiry - documented in the family's report, not configured as an invariant)
 ArmedWhileConnected == (status = "connected" /\ closing = <<>>) => tmr # None
 
+\* witness predicates (negated scenarios; TLC's counterexample is a schedule replayed on every run, no VIEW there)
+WitClientZero  == ~(step.act = "ClientRefresh" /\ step.mode = "zero" /\ cfg.csr /\ ~cfg.ping /\ status = "connected")
+WitHandlerZero == ~(step.act = "TimerFire" /\ step.op = "expire" /\ step.mode = "zero")
+
 TypeOK == now <= MaxNow * 10 /\ nact <= MaxActs
 View == <<cfg, now, status, auth, unusable, exp, nX, nR, nP, nO, tmr, lp, sub, closing, dl, sdl, owed, nact, out, cb>>
 =============================================================================
